@@ -1,7 +1,284 @@
 package main
 
-func raceBatchImpl(raceBin, work, tier string, seed uint64, workers int, verifDir string) ([]violationRec, map[string]interface{}) {
-	return nil, map[string]interface{}{"race_build_runs": 0}
+import (
+	"encoding/json"
+	"flag"
+	"fmt"
+	"os"
+	"os/exec"
+	"path/filepath"
+	"sort"
+	"strings"
+
+	"verif/simrt"
+)
+
+// Race clause of C12. The same trials as the plain batch are executed by a -race build of the
+// harness. simrt's own hand-offs create no happens-before edges (they run under RaceDisable) and
+// it issues exactly the edges the Go memory model guarantees for the simulated primitives, so a
+// ThreadSanitizer report is a pair of conflicting accesses in gofasta that no channel operation,
+// WaitGroup or go statement orders - although the simulator executed them serially.
+
+type raceReport struct {
+	Class  string `json:"class"`
+	Text   string `json:"text"`
+	Replay string `json:"replay"`
 }
 
-func raceWorkerImpl(args []string) {}
+type raceWorkerOut struct {
+	Runs     int          `json:"runs"`
+	Trials   int          `json:"trials"`
+	Races    []raceReport `json:"races"`
+	Filtered int          `json:"filtered"`
+}
+
+func raceLogPath(prefix string) string { return fmt.Sprintf("%s.%d", prefix, os.Getpid()) }
+
+func fileSize(p string) int64 {
+	st, err := os.Stat(p)
+	if err != nil {
+		return 0
+	}
+	return st.Size()
+}
+
+// splitReports cuts a race log into individual reports.
+func splitReports(s string) []string {
+	var out []string
+	parts := strings.Split(s, "==================\n")
+	for _, p := range parts {
+		if strings.Contains(p, "WARNING: DATA RACE") {
+			out = append(out, p)
+		}
+	}
+	return out
+}
+
+// accessFuncs returns, for each of the two accesses of a report, the innermost frame that is
+// neither in the Go runtime nor in the standard library (a package path without a dot in its
+// first element), i.e. the code responsible for the access.
+func accessFuncs(rep string) []string {
+	var out []string
+	lines := strings.Split(rep, "\n")
+	for i := 0; i < len(lines); i++ {
+		l := lines[i]
+		if !(strings.Contains(l, " at 0x") && strings.Contains(l, " by ")) {
+			continue
+		}
+		for j := i + 1; j < len(lines); j++ {
+			f := lines[j]
+			if strings.TrimSpace(f) == "" {
+				break
+			}
+			if strings.HasPrefix(f, "      ") {
+				continue
+			}
+			fn := strings.TrimSpace(f)
+			if k := strings.LastIndexByte(fn, '('); k > 0 {
+				fn = fn[:k]
+			}
+			first := fn
+			if k := strings.IndexByte(first, '/'); k >= 0 {
+				first = first[:k]
+			} else if k := strings.IndexByte(first, '.'); k >= 0 {
+				first = first[:k] // package name only, e.g. bytes, main
+			}
+			isStd := !strings.Contains(first, ".") && first != "main" && first != "verif"
+			if isStd {
+				continue
+			}
+			out = append(out, fn)
+			break
+		}
+		if len(out) == 2 {
+			break
+		}
+	}
+	return out
+}
+
+func raceWorkerImpl(args []string) {
+	fs := flag.NewFlagSet("raceworker", flag.ExitOnError)
+	tier := fs.String("tier", "quick", "")
+	seed := fs.Uint64("seed", 1, "")
+	shard := fs.Int("shard", 0, "")
+	nshards := fs.Int("nshards", 1, "")
+	outDir := fs.String("out", "", "")
+	trials := fs.Int("trials", 100, "")
+	logPrefix := fs.String("log", "", "")
+	one := fs.String("replay", "", "")
+	fs.Parse(args)
+	if !simrt.RaceBuild {
+		fatal("raceworker needs a -race build")
+	}
+	p := props["C12"]
+	logf := raceLogPath(*logPrefix)
+	out := &raceWorkerOut{}
+	tapEnabled = false
+	runTrial := func(t *Trial) []string {
+		before := fileSize(logf)
+		ctx := &Ctx{St: newStats(), quiet: true}
+		checkTrial(p, t, ctx)
+		out.Runs += ctx.St.Evaluations
+		out.Trials++
+		if fileSize(logf) == before {
+			return nil
+		}
+		b, _ := os.ReadFile(logf)
+		return splitReports(string(b[before:]))
+	}
+	handle := func(t *Trial, reps []string) {
+		for _, rep := range reps {
+			fns := accessFuncs(rep)
+			internal := len(fns) == 0
+			for _, f := range fns {
+				if strings.HasPrefix(f, "verif/simrt.") || strings.Contains(f, "/zverif.") || strings.HasPrefix(f, "main.") {
+					internal = true
+				}
+			}
+			if internal {
+				out.Filtered++
+				fmt.Fprintf(os.Stderr, "harness: race report with an access inside the simulator (filtered, counts as inconclusive):\n%s\n", rep)
+				continue
+			}
+			sort.Strings(fns)
+			for i := range fns {
+				fns[i] = shortFuncName(fns[i])
+			}
+			class := "C12/race{" + strings.Join(fns, "|") + "}"
+			dup := false
+			for _, r := range out.Races {
+				if r.Class == class {
+					dup = true
+				}
+			}
+			if dup {
+				continue
+			}
+			c := cloneTrial(t)
+			if c.Params == nil {
+				c.Params = map[string]string{}
+			}
+			c.Params["race"] = "1"
+			c.Note = "class: " + class + "\n" + rep
+			name := fmt.Sprintf("C12-race-%016x.json", mix(hashString(class), trialHash(c)))
+			path := filepath.Join(*outDir, name)
+			b, _ := json.MarshalIndent(c, "", " ")
+			os.WriteFile(path, b, 0644)
+			out.Races = append(out.Races, raceReport{Class: class, Text: rep, Replay: path})
+		}
+	}
+	if *one != "" {
+		b, err := os.ReadFile(*one)
+		if err != nil {
+			fatal(err)
+		}
+		var t Trial
+		if err := json.Unmarshal(b, &t); err != nil {
+			fatal(err)
+		}
+		reps := runTrial(&t)
+		if len(reps) == 0 {
+			fmt.Println("race replay: no data race reported on this trial")
+			os.Exit(0)
+		}
+		*outDir = os.TempDir()
+		handle(&t, reps)
+		for _, r := range out.Races {
+			fmt.Printf("CLASS %s\n%s\n", r.Class, r.Text)
+			os.Remove(r.Replay)
+		}
+		if len(out.Races) > 0 {
+			fmt.Printf("VIOLATION property=C12 replay=%s\n", *one)
+			os.Exit(1)
+		}
+		fmt.Println("INCONCLUSIVE: only simulator-internal race reports")
+		os.Exit(2)
+	}
+	for ord := *shard; ord < *trials; ord += *nshards {
+		sub := subSeed(*seed, "C12", ord)
+		r := NewRand(sub)
+		t := p.Gen(r, *tier, ord)
+		if t == nil {
+			continue
+		}
+		t.Prop, t.Tier, t.Seed, t.Ordinal, t.SubSeed = "C12", *tier, *seed, ord, sub
+		armWatchdog(fmt.Sprintf("C12 race ord=%d", ord))
+		reps := runTrial(t)
+		if len(reps) > 0 {
+			handle(t, reps)
+		}
+	}
+	if watchdog != nil {
+		watchdog.Stop()
+	}
+	b, _ := json.Marshal(out)
+	os.WriteFile(filepath.Join(*outDir, fmt.Sprintf("race%02d.json", *shard)), b, 0644)
+}
+
+func shortFuncName(f string) string {
+	if i := strings.LastIndexByte(f, '/'); i >= 0 {
+		f = f[i+1:]
+	}
+	return f
+}
+
+func raceBatchImpl(raceBin, work, tier string, seed uint64, workers int, verifDir string) ([]violationRec, map[string]interface{}) {
+	trials := 3900
+	if tier == "thorough" {
+		trials = 78000
+	}
+	procs := make([]*exec.Cmd, workers)
+	logPrefix := filepath.Join(work, "racelog")
+	for i := 0; i < workers; i++ {
+		c := exec.Command(raceBin, "raceworker", "-tier", tier, "-seed", fmt.Sprint(seed), "-shard", fmt.Sprint(i), "-nshards", fmt.Sprint(workers), "-out", work, "-trials", fmt.Sprint(trials), "-log", logPrefix)
+		c.Stdout, c.Stderr = os.Stderr, os.Stderr
+		c.Env = append(os.Environ(), "GORACE=halt_on_error=0 log_path="+logPrefix, "GOMAXPROCS=2")
+		if err := c.Start(); err != nil {
+			fatal(err)
+		}
+		procs[i] = c
+	}
+	for i, c := range procs {
+		if err := c.Wait(); err != nil {
+			// with halt_on_error=0 the race runtime still makes the process exit 66 if any race was reported
+			if ee, ok := err.(*exec.ExitError); !ok || ee.ExitCode() != 66 {
+				fmt.Fprintf(os.Stderr, "harness: race worker %d: %v\n", i, err)
+				fmt.Println("INCONCLUSIVE: a race worker process failed (harness trouble, not a violation)")
+				os.Exit(2)
+			}
+		}
+	}
+	total := raceWorkerOut{}
+	var viols []violationRec
+	seen := map[string]bool{}
+	for i := 0; i < workers; i++ {
+		b, err := os.ReadFile(filepath.Join(work, fmt.Sprintf("race%02d.json", i)))
+		if err != nil {
+			fatal(err)
+		}
+		var o raceWorkerOut
+		json.Unmarshal(b, &o)
+		total.Runs += o.Runs
+		total.Trials += o.Trials
+		total.Filtered += o.Filtered
+		for _, r := range o.Races {
+			if seen[r.Class] {
+				continue
+			}
+			seen[r.Class] = true
+			viols = append(viols, violationRec{Class: r.Class, Detail: r.Text, Replay: r.Replay, Count: 1})
+		}
+	}
+	info := map[string]interface{}{
+		"race_build_runs":              total.Runs,
+		"race_build_trials":            total.Trials,
+		"race_reports_in_gofasta":      len(viols),
+		"race_reports_filtered_simrt":  total.Filtered,
+	}
+	if total.Filtered > 0 {
+		fmt.Printf("INCONCLUSIVE: %d race reports had an access inside the simulator itself\n", total.Filtered)
+		os.Exit(2)
+	}
+	return viols, info
+}
